@@ -1265,16 +1265,16 @@ Qed.
 Theorem match_iff_flat_nobase :
   forall rs p,
     wf_tree rs = true -> wf_routes rs = true -> starts_with_slash p = true ->
-    known_class None rs p = false ->
+    known_class_coarse None rs p = false ->
     matches None rs p = flat_any None rs p /\ match_route None rs p <> MPanic.
 Proof.
   intros rs p Hwt Hwf Hsl Hk.
-  unfold known_class in Hk.
+  unfold known_class_coarse in Hk.
   apply orb_false_iff in Hk. destruct Hk as [Hk Hds].
   apply orb_false_iff in Hk. destruct Hk as [Hk Hopt].
   apply orb_false_iff in Hk. destruct Hk as [Hkb Hss].
   unfold k_boundary in Hkb. unfold k_slash_static in Hss. rewrite orb_false_r in Hss.
-  unfold k_optional in Hopt. unfold k_dslash in Hds.
+  unfold k_optional_any in Hopt. unfold k_dslash in Hds.
   change (fun x : pseg => match x with POpt _ => true | _ => false end) with is_popt in Hopt.
   (* the tree has no optional segment *)
   assert (Hplain : forallb plain_route rs = true).
@@ -1335,7 +1335,7 @@ Example match_iff_flat_nontrivial :
                           Route (STuple [SStatic [112;111;115;116]; SParam [105;100]]) None])] in
   let p := [47;98;108;111;103;47;112;111;115;116;47;52;50] in
   wf_tree rs = true /\ wf_routes rs = true /\ starts_with_slash p = true
-  /\ known_class None rs p = false /\ matches None rs p = true /\ flat_any None rs p = true.
+  /\ known_class_coarse None rs p = false /\ matches None rs p = true /\ flat_any None rs p = true.
 Proof. vm_compute. repeat split; reflexivity. Qed.
 
 (** ================================================================================
@@ -1490,17 +1490,17 @@ Qed.
 Theorem params_are_segments :
   forall rs p ch ps,
     wf_tree rs = true -> wf_routes rs = true -> starts_with_slash p = true ->
-    known_class None rs p = false ->
+    known_class_coarse None rs p = false ->
     match_route None rs p = MYes ch ps ->
     exists f r, In f (gen_routes rs) /\ spre (toks f) p = Some (ps, r) /\ rem_ok r = true.
 Proof.
   intros rs p ch ps Hwt Hwf Hsl Hk Hm.
-  unfold known_class in Hk.
+  unfold known_class_coarse in Hk.
   apply orb_false_iff in Hk. destruct Hk as [Hk Hds].
   apply orb_false_iff in Hk. destruct Hk as [Hk Hopt].
   apply orb_false_iff in Hk. destruct Hk as [Hkb Hss].
   unfold k_boundary in Hkb. unfold k_slash_static in Hss. rewrite orb_false_r in Hss.
-  unfold k_optional in Hopt.
+  unfold k_optional_any in Hopt.
   change (fun x : pseg => match x with POpt _ => true | _ => false end) with is_popt in Hopt.
   assert (Hplain : forallb plain_route rs = true).
   { unfold gen_routes in Hopt. apply existsb_flat_map_false in Hopt.
@@ -1717,16 +1717,16 @@ Theorem build_then_match :
     wf_tree rs = true -> wf_routes rs = true ->
     gen_routes rs = [f] ->                (* a table with one flat route *)
     vals_ok f vals -> p = build_path f vals ->
-    known_class None rs p = false ->
+    known_class_coarse None rs p = false ->
     exists ch, match_route None rs p = MYes ch (bindings f vals).
 Proof.
   intros rs f vals p Hwt Hwf Hgen Hv Hp Hk.
-  unfold known_class in Hk.
+  unfold known_class_coarse in Hk.
   apply orb_false_iff in Hk. destruct Hk as [Hk Hds].
   apply orb_false_iff in Hk. destruct Hk as [Hk Hopt].
   apply orb_false_iff in Hk. destruct Hk as [Hkb Hss].
   unfold k_boundary in Hkb. unfold k_slash_static in Hss. rewrite orb_false_r in Hss.
-  unfold k_optional in Hopt.
+  unfold k_optional_any in Hopt.
   change (fun x : pseg => match x with POpt _ => true | _ => false end) with is_popt in Hopt.
   assert (Hplain : forallb plain_route rs = true).
   { unfold gen_routes in Hopt. apply existsb_flat_map_false in Hopt.
@@ -1781,7 +1781,7 @@ Example build_then_match_nontrivial :
   let rs := [Route (SStatic [47;98]) (Some [Route (STuple [SStatic [112]; SParam [105;100]]) None])] in
   let f := [PStatic [47;98]; PStatic [112]; PParam [105;100]] in
   gen_routes rs = [f] /\ vals_ok f [[52;50]] /\ build_path f [[52;50]] = [47;98;47;112;47;52;50]
-  /\ known_class None rs (build_path f [[52;50]]) = false
+  /\ known_class_coarse None rs (build_path f [[52;50]]) = false
   /\ match_route None rs (build_path f [[52;50]])
      = MYes [(0%nat, [47;98]); (1%nat, [47;112;47;52;50])] [([105;100], [52;50])].
 Proof.
@@ -1808,13 +1808,13 @@ Definition flat_good (q : bytes) (f : list pseg) : bool :=
 Lemma core_match :
   forall base rs q,
     wf_tree rs = true -> wf_routes rs = true ->
-    existsb slash_static_flat (gen_routes rs) = false -> k_optional rs = false ->
+    existsb slash_static_flat (gen_routes rs) = false -> k_optional_any rs = false ->
     at_boundary q = true -> kb (cores_of base rs) q = false ->
     match_siblings rs 0 q <> NPanic
     /\ is_yes (oproj (match_siblings rs 0 q)) = existsb (flat_good q) (gen_routes rs).
 Proof.
   intros base rs q Hwt Hwf Hss Hopt Hb Hkb.
-  unfold k_optional in Hopt.
+  unfold k_optional_any in Hopt.
   change (fun x : pseg => match x with POpt _ => true | _ => false end) with is_popt in Hopt.
   assert (Hplain : forallb plain_route rs = true).
   { unfold gen_routes in Hopt. apply existsb_flat_map_false in Hopt.
@@ -1919,11 +1919,11 @@ Proof. reflexivity. Qed.
 Theorem match_iff_flat_base :
   forall b rs p,
     wf_tree rs = true -> wf_routes rs = true -> starts_with_slash p = true ->
-    known_class (Some b) rs p = false ->
+    known_class_coarse (Some b) rs p = false ->
     matches (Some b) rs p = flat_any (Some b) rs p /\ match_route (Some b) rs p <> MPanic.
 Proof.
   intros b rs p Hwt Hwf Hsl Hk.
-  unfold known_class in Hk.
+  unfold known_class_coarse in Hk.
   apply orb_false_iff in Hk. destruct Hk as [Hk Hds].
   apply orb_false_iff in Hk. destruct Hk as [Hk Hopt].
   apply orb_false_iff in Hk. destruct Hk as [Hkb Hss].
@@ -1947,7 +1947,7 @@ Proof.
     rewrite has_dslash_cons2, N.eqb_refl in Hds. cbn [andb] in Hds.
     apply orb_false_iff in Hds. now destruct Hds. }
   (* the table side: every entry starts with the base, literally *)
-  assert (Hopt' := Hopt). unfold k_optional in Hopt'.
+  assert (Hopt' := Hopt). unfold k_optional_any in Hopt'.
   change (fun x : pseg => match x with POpt _ => true | _ => false end) with is_popt in Hopt'.
   match goal with |- _ = ?X /\ _ =>
   assert (Hflat : X =
@@ -2018,7 +2018,7 @@ Qed.
 Theorem match_iff_flat_except_known :
   forall base rs p,
     wf_tree rs = true -> wf_routes rs = true -> starts_with_slash p = true ->
-    known_class base rs p = false ->
+    known_class_coarse base rs p = false ->
     matches base rs p = flat_any base rs p /\ match_route base rs p <> MPanic.
 Proof.
   intros [b|] rs p; [apply match_iff_flat_base|apply match_iff_flat_nobase].
@@ -2028,7 +2028,7 @@ Example match_iff_flat_base_nontrivial :
   let rs := [Route (SStatic [47]) None; Route (STuple [SStatic [97]; SParam [120]]) None] in
   let b := [47;112;102] in
   let p := [47;112;102;47;97;47;49] in
-  wf_tree rs = true /\ wf_routes rs = true /\ known_class (Some b) rs p = false
+  wf_tree rs = true /\ wf_routes rs = true /\ known_class_coarse (Some b) rs p = false
   /\ matches (Some b) rs p = true /\ flat_any (Some b) rs p = true.
 Proof. vm_compute. repeat split; reflexivity. Qed.
 
@@ -2058,7 +2058,7 @@ Qed.
 Theorem first_flat_route_wins :
   forall rs p ch ps,
     wf_tree rs = true -> wf_routes rs = true -> starts_with_slash p = true ->
-    known_class None rs p = false ->
+    known_class_coarse None rs p = false ->
     match_route None rs p = MYes ch ps ->
     exists pre f post r,
       gen_routes rs = pre ++ f :: post
@@ -2066,12 +2066,12 @@ Theorem first_flat_route_wins :
       /\ spre (toks f) p = Some (ps, r) /\ rem_ok r = true.
 Proof.
   intros rs p ch ps Hwt Hwf Hsl Hk Hm.
-  unfold known_class in Hk.
+  unfold known_class_coarse in Hk.
   apply orb_false_iff in Hk. destruct Hk as [Hk Hds].
   apply orb_false_iff in Hk. destruct Hk as [Hk Hopt].
   apply orb_false_iff in Hk. destruct Hk as [Hkb Hss].
   unfold k_boundary in Hkb. unfold k_slash_static in Hss. rewrite orb_false_r in Hss.
-  assert (Hopt' := Hopt). unfold k_optional in Hopt'.
+  assert (Hopt' := Hopt). unfold k_optional_any in Hopt'.
   change (fun x : pseg => match x with POpt _ => true | _ => false end) with is_popt in Hopt'.
   assert (Hplain : forallb plain_route rs = true).
   { unfold gen_routes in Hopt'. apply existsb_flat_map_false in Hopt'.
